@@ -135,7 +135,7 @@ TEXT = {
         "technique": "runtime monitoring: reflection-driven request fuzzing of all RPC handlers in every activation state with panic capture",
     },
     "C20": {
-        "text": "Exploration: seeded account histories on a real service are exported; the archive is parsed independently (key files, entries re-hashed against their file names, heads); it is restored into a fresh node and every log is compared (entry CIDs, heads, derived state) before anything is written there, "
+        "text": "Exploration: seeded account histories on a real service (in every other account with logs forked into two heads, as concurrent writers leave them) are exported; the archive is parsed independently (key files, entries re-hashed against their file names, heads); it is restored into a fresh node and every log is compared (entry CIDs, heads, derived state) before anything is written there, "
                 "then a service is started on the restored node and the messages are listed; mutated archives (byte flips in entries/heads/keys, dropped/duplicated key files, duplicated/renamed entries, reordering, truncation, used store) must be rejected where the statement says so and never panic.",
         "note": "A restore waiting for entries that cannot come (mutations outside the rejection list) is released by cancelling the node and recorded, not judged.",
         "technique": "runtime monitoring: export/restore round trip with independent archive parsing, log/state equality oracle and archive mutation catalogue",
